@@ -9,6 +9,7 @@ import sys
 VERIF = os.path.dirname(os.path.dirname(os.path.abspath(__file__)))
 REPO = os.environ.get("VERIF_REPO", "/repo")
 _child = {}
+_seq = [0]
 
 
 def call(engine_mod: str, func: str, *args):
@@ -19,12 +20,24 @@ def call(engine_mod: str, func: str, *args):
         ch = subprocess.Popen([sys.executable, "-m", "harness.noassert", engine_mod],
                               stdin=subprocess.PIPE, stdout=subprocess.PIPE, text=True, env=env, cwd=VERIF)
         _child[engine_mod] = ch
-    ch.stdin.write(json.dumps([func, list(args)]) + "\n")
-    ch.stdin.flush()
-    line = ch.stdout.readline()
-    if not line:
-        raise RuntimeError("no-assertion child died")
-    rep = json.loads(line)
+    _seq[0] += 1
+    rid = _seq[0]
+    try:
+        ch.stdin.write(json.dumps([rid, func, list(args)]) + "\n")
+        ch.stdin.flush()
+        line = ch.stdout.readline()
+        if not line:
+            raise RuntimeError("no-assertion child died")
+        rep = json.loads(line)
+        if rep.get("id") != rid:
+            raise RuntimeError("no-assertion child: reply out of sequence")
+    except BaseException:
+        # never leave a half-finished exchange behind (e.g. the per-case alarm fired): restart the child
+        try:
+            ch.kill()
+        finally:
+            _child.pop(engine_mod, None)
+        raise
     if "error" in rep:
         raise RuntimeError("no-assertion child: " + rep["error"])
     return rep["ok"]
@@ -38,7 +51,7 @@ def _main():
     from bigtree.globals import ASSERTIONS
     eng = importlib.import_module(sys.argv[1])
     for line in sys.stdin:
-        func, args = json.loads(line)
+        rid, func, args = json.loads(line)
         try:
             if func == "__assertions__":
                 rep = {"ok": bool(ASSERTIONS)}
@@ -46,6 +59,7 @@ def _main():
                 rep = {"ok": getattr(eng, func)(*args)}
         except BaseException as e:  # noqa
             rep = {"error": "".join(traceback.format_exception_only(type(e), e)).strip()[:300]}
+        rep["id"] = rid
         real_stdout.write(json.dumps(rep, default=str) + "\n")
         real_stdout.flush()
 
